@@ -102,6 +102,8 @@ func c06(c *eng.Ctx, r *eng.Report) {
 		"R6.3 the bottom-level SubFT implementations subtract only on the sufficient-funds edge, transferBalance rejects negative amounts, CanTransfer rejects negative amounts; " +
 		"R6.4 no floating-point value flows into an amount except through Float64ToBigInt at the reviewed stake sites. " +
 		"R6.5 a failed transaction is rolled back through the journal, so the journal entries that carry balances (storageChange: balances and token slots live in account data; suicideChange: the balance a self-destruct zeroed) are undone by exactly their paired raw writes on every path through undo (the C04 pairing rule applied to these entries). " +
+		"R6.7 the affordability pre-check of a contract transaction prices the gas limit the transaction asked for (raw.GasLimit as decoded, never a smaller, capped figure): execution only ever lowers that limit, so the fee it bills is covered — a pre-check that caps differently from execution lets a debit be refused silently (SubBalance does nothing when funds are short) while the fee account is credited in full; " +
+		"R6.6 locked stake stays part of the conserved total: what GetRefundStake returns for payout is exactly what it subtracts from the miner's recorded stake, and its callers schedule that amount unchanged (C20's R20.3 under this property's id). " +
 		"Not decided: the sums themselves; EVM-internal accounting beyond the CanTransfer/Transfer pairing."
 	r.Assume = []string{"balances change only through the AccountDB/StateDB methods listed in rules/c06.go", "a storage slot of the bound wRPG contract is only written by that contract's own code (EVM SSTORE) besides these methods"}
 	sites := moneySites(c)
@@ -110,6 +112,16 @@ func c06(c *eng.Ctx, r *eng.Report) {
 	c06Bottom(c, r)
 	c06Float(c, r, sites)
 	c04UndoAs(c, r, "R6.5", map[string]bool{"storageChange": true, "suicideChange": true}, 4)
+	c06PrecheckGas(c, r)
+	// R6.6: locked stake is part of the conserved total (the `lock` class of R6.1): what a refund pays out is exactly
+	// what it takes off the miner's recorded stake (C20's R20.3 re-run under this property's id)
+	sub := eng.NewReport(r.Prop, r.Tier)
+	c20Refund(c, sub)
+	for _, o := range sub.Obls {
+		o.Rule = "R6.6"
+		r.Obls = append(r.Obls, o)
+	}
+	r.Min("R6.6", 4)
 }
 
 func c06Classes(c *eng.Ctx, r *eng.Report, sites []moneySite) {
@@ -492,4 +504,28 @@ func c06Float(c *eng.Ctx, r *eng.Report, sites []moneySite) {
 			r.Fail(rule, key, c.Pos(s.call.Pos()), "the amount derives from a floating-point value ("+f+"): binary rounding can create or destroy fractions of a token")
 		}
 	}
+}
+
+// c06PrecheckGas: the fee the pre-check covers is an upper bound of the fee
+// execution bills.
+func c06PrecheckGas(c *eng.Ctx, r *eng.Report) {
+	const rule = "R6.7"
+	r.Min(rule, 1)
+	fn := c.Func("executor", "preCheckContractFee")
+	if !r.Anchor(fn != nil, rule, "executor.preCheckContractFee") {
+		return
+	}
+	bad, n := "", 0
+	for _, s := range eng.Sites(fn) {
+		if s.Name() != "(*math/big.Int).SetUint64" || len(s.Common().Args) < 2 {
+			continue
+		}
+		v := s.Common().Args[1]
+		// only the operand that is multiplied by the gas price matters
+		n++
+		if _, f := eng.FieldOf(unload(v)); f != "GasLimit" {
+			bad = eng.Desc(v)
+		}
+	}
+	r.Check(bad == "" && n >= 1, rule, "precheck:gas-limit-uncapped", c.Pos(fn.Pos()), "the priced gas limit is raw.GasLimit as decoded", "preCheckContractFee prices "+bad+" instead of the gas limit the transaction asked for: where this figure is below what execution may run and bill (execution caps at 900M gas since proposal 026), a successful call that burns more than the sender holds has its debit silently refused while FeeAccount is credited the full fee — tokens are created")
 }
